@@ -78,6 +78,7 @@ void PoolWakeState::wakeRange(int32_t count) {
   // immediately without sleeping.
   int32_t lastGroup = (count - 1) / groupSize_;
   for (int32_t g = 0; g <= lastGroup && g < numGroups_; ++g) {
+    DISPENSO_VERIF_POINT("PwRangeReadMask", this);
     uint64_t mask = groupStates_[static_cast<size_t>(g)].sleepMask.load(std::memory_order_relaxed);
     if (g == lastGroup) {
       int32_t bitsInLastGroup = count - g * groupSize_;
@@ -101,14 +102,17 @@ void PoolWakeState::wakeRange(int32_t count) {
 }
 
 int32_t PoolWakeState::claimAndWakeOne() {
+  DISPENSO_VERIF_POINT("PwClaimReadSleeping", this);
   if (totalSleeping_.load(std::memory_order_relaxed) <= 0) {
     return -1;
   }
+  DISPENSO_VERIF_POINT("PwReadNextGroup", this);
   int32_t g = nextWakeGroup_.load(std::memory_order_relaxed);
   if (g >= numGroups_) {
     g = 0;
   }
   for (int32_t gi = 0; gi < numGroups_; ++gi) {
+    DISPENSO_VERIF_POINT("PwClaimReadMask", this);
     uint64_t mask = groupStates_[static_cast<size_t>(g)].sleepMask.load(std::memory_order_relaxed);
     while (mask) {
       int bit = detail::countTrailingZeros(mask);
@@ -117,6 +121,7 @@ int32_t PoolWakeState::claimAndWakeOne() {
         // Wake one thread from this group's shared waiter (the claimed
         // thread's bit is cleared so other callers see one fewer sleeper).
         waiterFor(threadIdx).bumpAndWake();
+        DISPENSO_VERIF_POINT("PwStoreNextGroup", this);
         nextWakeGroup_.store(nextGroupTable_[static_cast<size_t>(g)], std::memory_order_relaxed);
         return threadIdx;
       }
@@ -140,6 +145,7 @@ bool PoolWakeState::cascadeWakeSeed(int32_t count) {
   // group's epoch (so any racing parker sees the bump and skips sleep) and
   // return. Zero syscalls, ~N atomic stores. This matches the warm-pool
   // path of the original wakeRange.
+  DISPENSO_VERIF_POINT("PwSeedReadSleeping", this);
   if (totalSleeping_.load(std::memory_order_relaxed) == 0) {
     for (int32_t g = 0; g <= lastGroup; ++g) {
       waiterFor(g * groupSize_).bump();
@@ -154,6 +160,7 @@ bool PoolWakeState::cascadeWakeSeed(int32_t count) {
   // get prompt futex wakes. The extra syscalls are negligible — they only
   // fire when threads are actually sleeping.
   for (int32_t g = 0; g <= lastGroup; ++g) {
+    DISPENSO_VERIF_POINT("PwSeedReadMask", this);
     uint64_t mask = groupStates_[static_cast<size_t>(g)].sleepMask.load(std::memory_order_relaxed);
     if (g == lastGroup) {
       int32_t bitsInLastGroup = count - g * groupSize_;
@@ -179,6 +186,7 @@ void PoolWakeState::wakeAll() {
   // Without the bump, such a thread enters waitFor with a stale epoch and
   // blocks until timeout — causing slow shutdown.
   for (int32_t g = 0; g < numGroups_; ++g) {
+    DISPENSO_VERIF_POINT("PwAllReadMask", this);
     if (groupStates_[static_cast<size_t>(g)].sleepMask.load(std::memory_order_relaxed)) {
       waiterFor(g * groupSize_).bumpAndWakeAll();
     } else {
